@@ -802,8 +802,14 @@ class Unstructured(NITFElement):
             len_cond = value.get_bytes_length() > siz_lim
         if len_cond:
             raise ValueError('The provided data is longer than {}'.format(siz_lim))
+        old_data = self._data
         self._data = value
-        self._populate_data()
+        try:
+            self._populate_data()
+        except Exception:
+            # a refused assignment leaves the element as it was
+            self._data = old_data
+            raise
 
     def _populate_data(self):
         """
